@@ -456,13 +456,31 @@ class SpooledStringIO(SpooledIOBase):
 
     def readline(self, length=None):
         self._checkClosed()
+        if length is not None and length < 0:
+            length = None
         ret = self.buffer.readline(length).decode('utf-8')
+        # The codec reader also stops at '\r' and the other unicode
+        # line boundaries; like io.StringIO, only '\n' ends a line here
+        while (ret and not ret.endswith('\n')
+               and (length is None or len(ret) < length)):
+            left = None if length is None else length - len(ret)
+            more = self.buffer.readline(left).decode('utf-8')
+            if not more:
+                break
+            ret += more
         self._tell = self.tell() + len(ret)
         return ret
 
     def readlines(self, sizehint=0):
-        ret = [x.decode('utf-8') for x in self.buffer.readlines(sizehint)]
-        self._tell = self.tell() + sum(len(x) for x in ret)
+        ret, total = [], 0
+        while True:
+            line = self.readline()
+            if not line:
+                break
+            ret.append(line)
+            total += len(line)
+            if sizehint and 0 < sizehint <= total:
+                break
         return ret
 
     @property
